@@ -98,3 +98,44 @@ pub fn bad_force_nullable(join_type: &JoinType, is_left: bool) -> bool {
 pub fn bad_maintains_input_order(join_type: JoinType) -> Vec<bool> {
     vec![matches!(join_type, JoinType::Inner), matches!(join_type, JoinType::Left | JoinType::Right)]
 }
+
+#[derive(Clone, Copy, PartialEq, Eq, Debug)]
+pub enum Op { Eq, NotEq, Lt, LtEq, Gt, GtEq, And, Or }
+
+impl Op {
+    /// seeded: NOT (a < b) is a >= b, not a > b
+    pub fn bad_negate(&self) -> Option<Op> {
+        match self {
+            Op::Eq => Some(Op::NotEq),
+            Op::NotEq => Some(Op::Eq),
+            Op::Lt => Some(Op::Gt),
+            Op::LtEq => Some(Op::Gt),
+            Op::Gt => Some(Op::LtEq),
+            Op::GtEq => Some(Op::Lt),
+            Op::And | Op::Or => None,
+        }
+    }
+}
+
+#[derive(Clone, PartialEq, Eq, Debug)]
+pub enum Dt { Int8, Int16, Int32, Int64, UInt8, UInt16, UInt32, UInt64, Float16, Float32, Float64, Decimal128(u8, i8) }
+
+/// seeded: (UInt64, signed) -> Int64 (wraps), and (Int8, UInt8) one-sided
+pub fn bad_numerical_coercion(l: &Dt, r: &Dt) -> Option<Dt> {
+    use Dt::*;
+    match (l, r) {
+        (Float64, _) | (_, Float64) => Some(Float64),
+        (_, Float32) | (Float32, _) => Some(Float32),
+        (_, Float16) | (Float16, _) => Some(Float16),
+        (UInt64, Int64 | Int32 | Int16 | Int8) | (Int64 | Int32 | Int16 | Int8, UInt64) => Some(Int64),
+        (UInt64, _) | (_, UInt64) => Some(UInt64),
+        (Int64, _) | (_, Int64) | (UInt32, Int32 | Int16 | Int8) | (Int32 | Int16 | Int8, UInt32) => Some(Int64),
+        (UInt32, _) | (_, UInt32) => Some(UInt32),
+        (Int32, _) | (_, Int32) | (UInt16, Int16 | Int8) | (Int16 | Int8, UInt16) => Some(Int32),
+        (UInt16, _) | (_, UInt16) => Some(UInt16),
+        (Int16, _) | (_, Int16) | (Int8, UInt8) => Some(Int16),
+        (Int8, _) | (_, Int8) => Some(Int8),
+        (UInt8, _) | (_, UInt8) => Some(UInt8),
+        _ => None,
+    }
+}
